@@ -214,7 +214,8 @@ Lemma cname_chase_secure qt gs maxc : forall fuel count n maybe m,
 Proof.
   induction fuel as [|fuel IH]; intros count n maybe m H; simpl in H; [discriminate|].
   destruct (cname_find n qt gs) as [[[tgt st]|]|] eqn:F.
-  - destruct (maxc <? count + 1); [inversion H|].
+  - destruct (vstate_eqb st Bogus); [inversion H|].
+    destruct (maxc <? count + 1); [inversion H|].
     apply IH in H as [H1 H2]. apply map_maybe_secure_secure in H1 as [-> ->].
     split; [reflexivity|]. eapply cs_step; eassumption.
   - inversion H. subst. split; [reflexivity|apply cs_refl].
@@ -227,6 +228,7 @@ Lemma cname_chase_fuel qt gs maxc : forall fuel count n maybe,
 Proof.
   induction fuel as [|fuel IH]; intros count n maybe H; [lia|]. simpl.
   destruct (cname_find n qt gs) as [[[tgt st]|]|]; try (split; [discriminate|exact I]).
+  destruct (vstate_eqb st Bogus); [split; [discriminate|exact I]|].
   destruct (N.ltb_spec maxc (count + 1)); [split; [discriminate|exact I]|].
   apply IH. lia.
 Qed.
@@ -283,7 +285,7 @@ Theorem secure_all_groups_refuted : answer_init_is_const = true ->
 Proof.
   intros X.
   exists [[119]; [115]], 1,
-    [mkA true 1 1 [[119]; [115]] None Secure false; mkA true 1 1 [[119]; [105]] None Insecure false].
+    [mkA true 1 1 [[119]; [115]] None Secure false None true; mkA true 1 1 [[119]; [105]] None Insecure false None true].
   split.
   - unfold positive_answer_state. rewrite X. vm_compute. reflexivity.
   - eexists. split; [right; left; reflexivity|reflexivity].
@@ -303,16 +305,16 @@ Qed.
 Example positive_answer_ex :
   (* alias CNAME www (secure), www A (secure) *)
   positive_answer_state [[97]] 1 11
-    [mkA true 5 1 [[97]] (Some [[119]]) Secure false; mkA true 1 1 [[119]] None Secure false] = Ok (Some Secure) /\
+    [mkA true 5 1 [[97]] (Some [[119]]) Secure false None true; mkA true 1 1 [[119]] None Secure false None true] = Ok (Some Secure) /\
   (* the CNAME group is insecure: the answer is *)
   positive_answer_state [[97]] 1 11
-    [mkA true 5 1 [[97]] (Some [[119]]) Insecure false; mkA true 1 1 [[119]] None Secure false] = Ok (Some Insecure) /\
+    [mkA true 5 1 [[97]] (Some [[119]]) Insecure false None true; mkA true 1 1 [[119]] None Secure false None true] = Ok (Some Insecure) /\
   (* a bogus group anywhere: bogus *)
   positive_answer_state [[119]] 1 11
-    [mkA true 1 1 [[119]] None Secure false; mkA true 16 1 [[120]] None Bogus false] = Ok (Some Bogus) /\
+    [mkA true 1 1 [[119]] None Secure false None true; mkA true 16 1 [[120]] None Bogus false None true] = Ok (Some Bogus) /\
   (* a CNAME loop ends as bogus after max_cname_dname steps *)
   positive_answer_state [[97]] 1 11
-    [mkA true 5 1 [[97]] (Some [[98]]) Secure false; mkA true 5 1 [[98]] (Some [[97]]) Secure false] = Ok (Some Bogus).
+    [mkA true 5 1 [[97]] (Some [[98]]) Secure false None true; mkA true 5 1 [[98]] (Some [[97]]) Secure false None true] = Ok (Some Bogus).
 Proof. vm_compute. repeat split. Qed.
 
 (* the negative path: a secure verdict comes from one of the three NSEC proofs *)
